@@ -179,7 +179,8 @@ func drawSpec(t *rapid.T, label string, kinds []string, authors []string) mwSpec
 			}[k]).Draw(t, label+"nlarge")
 		}
 	case "lower", "upper":
-		s.From = rapid.OneOf(rapid.Int64Range(10, 100000), rapid.Int64Range(10, 100), rapid.Just(int64(1000000000))).Draw(t, label+"secs")
+		// also the legal extremes: 0 ("nothing older than now" / "nothing from the future") and a negative limit
+		s.From = rapid.OneOf(rapid.Int64Range(10, 100000), rapid.Int64Range(10, 100), rapid.Just(int64(1000000000)), rapid.SampledFrom([]int64{0, 0, -30})).Draw(t, label+"secs")
 	case "window":
 		s.From = -rapid.Int64Range(10, 100000).Draw(t, label+"from")
 		s.To = rapid.Int64Range(10, 100000).Draw(t, label+"to")
@@ -187,7 +188,7 @@ func drawSpec(t *rapid.T, label string, kinds []string, authors []string) mwSpec
 		n := rapid.IntRange(1, 2).Draw(t, label+"nf")
 		for i := 0; i < n; i++ {
 			f := &mocrelay.ReqFilter{}
-			switch rapid.IntRange(0, 2).Draw(t, fmt.Sprintf("%sf%dshape", label, i)) {
+			switch rapid.IntRange(0, 3).Draw(t, fmt.Sprintf("%sf%dshape", label, i)) {
 			case 0:
 				f.Kinds = []int64{rapid.SampledFrom([]int64{1, 7}).Draw(t, fmt.Sprintf("%sf%dk", label, i))}
 			case 1:
@@ -195,6 +196,9 @@ func drawSpec(t *rapid.T, label string, kinds []string, authors []string) mwSpec
 			case 2:
 				f.Kinds = []int64{rapid.SampledFrom([]int64{1, 7}).Draw(t, fmt.Sprintf("%sf%dk", label, i))}
 				f.Authors = []string{rapid.SampledFrom(authors).Draw(t, fmt.Sprintf("%sf%da", label, i))}
+			case 3:
+				// an operator's filter may name any tag (the generated events carry t = 0, 1, 2, ...)
+				f.Tags = map[string][]string{rapid.SampledFrom([]string{"t", "t", "client"}).Draw(t, fmt.Sprintf("%sf%dtn", label, i)): {rapid.SampledFrom([]string{"0", "1", "verif"}).Draw(t, fmt.Sprintf("%sf%dtv", label, i))}}
 			}
 			s.Filters = append(s.Filters, f)
 		}
@@ -294,6 +298,10 @@ func drawClientMsg(t *rapid.T, label string, tg msgTargets, authors []string, no
 		e.CreatedAt = now + off
 		e.Tags = []mocrelay.Tag{}
 		for i := 0; i < nt; i++ {
+			if i == 1 && nt >= 2 && e.Kind == 7 {
+				e.Tags = append(e.Tags, mocrelay.Tag{"client", "verif"})
+				continue
+			}
 			e.Tags = append(e.Tags, mocrelay.Tag{"t", fmt.Sprint(i)})
 		}
 		b := make([]byte, nc)
